@@ -431,6 +431,9 @@ add("c20_decode_arbitrary_set", "c20::h_decode_arbitrary::<{M}>({A}, true)", ["C
 add("c20_decode_arbitrary_map", "c20::h_decode_arbitrary::<{M}>({A}, false)", ["C20", "C05"], [{"M": 2, "A": 2}, {"M": 2, "A": 3}], [{"M": 2, "A": 3}, {"M": 3, "A": 3}, {"M": 1, "A": 2}],
     unwind="6", features=("serde",), fn="Deserialize for Map on input with repeated keys", shape="S_u8", timeout="40m")
 
+add("c20_decode_in_place", "c20::h_decode_in_place::<{N}>({A})", ["C20"], NL(2, (1, 2)), NL(3, (0, 3)), unwind="N+4", features=("serde",),
+    fn="Deserialize::deserialize_in_place for Set and Map", shape="S_u8", timeout="40m")
+
 
 def units_for(prop):
     return [u for u in UNITS if prop in u.props or "*" in u.props]
